@@ -26,6 +26,12 @@ pub struct Ctl {
     /// model database latency: a read takes its value when it is issued and is delivered at a second
     /// scheduling point (`*.done`), so other calls can land in between
     pub split_reads: AtomicBool,
+    /// fault injection (C12, "each call either fails without effect ..."): task id + 1 whose n-th single-record read
+    /// of something other than the epoch record fails once (0 = no fault)
+    pub fail_task: std::sync::atomic::AtomicUsize,
+    pub fail_index: std::sync::atomic::AtomicUsize,
+    pub fail_seen: std::sync::atomic::AtomicUsize,
+    pub fail_fired: AtomicBool,
 }
 
 #[derive(Clone, Default)]
@@ -90,6 +96,16 @@ impl Database for SchedDb {
         // the value is read when the turn is granted, not when the call was issued
         let is_azks = St::data_type() == akd::storage::types::StorageType::Azks;
         self.gate(if is_azks { "get_azks" } else { "get" }, String::new()).await;
+        if !is_azks {
+            let ft = self.ctl.fail_task.load(Ordering::SeqCst);
+            if ft != 0 && TID.try_with(|t| *t + 1 == ft).unwrap_or(false) {
+                let k = self.ctl.fail_seen.fetch_add(1, Ordering::SeqCst);
+                if k == self.ctl.fail_index.load(Ordering::SeqCst) {
+                    self.ctl.fail_fired.store(true, Ordering::SeqCst);
+                    return Err(StorageError::Connection("injected read failure".into()));
+                }
+            }
+        }
         let r = self.inner.get::<St>(id).await;
         if is_azks {
             if let Some(last) = self.ctl.trace.lock().unwrap().last_mut() {
